@@ -316,7 +316,7 @@ RetStep(m, ev) ==
     IF api = "_env" THEN Good(m)
     ELSE IF api = "construct" THEN Bad(m, "C15:rejected-valid")                 \* scenarios only use path strings of the grammar
     ELSE IF ev.outcome = "hang" THEN Bad(m, "C10:hang")
-    ELSE IF ev.outcome = "exc" /\ ev.pycomm = 0 THEN Bad(m, "C10:foreign-exception+C13:foreign-exception")
+    ELSE IF ev.outcome = "exc" /\ ev.pycomm = 0 THEN Bad(m, "C10:foreign-exception+C13:foreign-exception" \o (IF api \in {"read", "write"} THEN "+C03:exception" ELSE ""))
     ELSE IF api \in {"close", "exit"} /\ ev.connected # 0 THEN Bad(m, "C10:close-state")
     ELSE IF api \in {"close", "exit"} /\ ~m.closeFault /\ m.alive /\ ev.faulted = 0
             /\ (m.sessions # {} \/ \E i \in 1..Len(m.conns) : m.conns[i].cid \in m.dConns) THEN Bad(m, "C10:target-dirty")
